@@ -210,6 +210,13 @@ contract(_Q + "run",
                  ("setup-once", "implies(before(did_pre_import), did_pre_import and ev_count('DocTest._import_module') == 0 "
                                 "and ev_count('DocTest._test_globals') == 0)"),
                  ("setup-before-first-executed-part", "implies(not " + _SK + ", did_pre_import)"),
+                 # C02: the value handed to the checker is the value of THIS part's expression, or the not-evaluated marker
+                 ("value-of-this-part-only",
+                  "implies(ev_count('DoctestPart.check') == 1, "
+                  "(ev_count('eval') == 0 and ev_arg('DoctestPart.check', 0, 'got_eval') is constants.NOT_EVALED) or "
+                  "(ev_count('eval') == 1 and ev_count('asyncio.run') == 0 and ev_arg('DoctestPart.check', 0, 'got_eval') is ev_arg('eval', 0, 'result')) or "
+                  "(ev_count('asyncio.run') == 1 and (ev_arg('DoctestPart.check', 0, 'got_eval') is ev_arg('asyncio.run', 0, 'result') or "
+                  "ev_arg('DoctestPart.check', 0, 'got_eval') is constants.NOT_EVALED)))"),
                  ("want-ignored",
                   "implies(not " + _HASWANT + " or S.rs_flag(runstate.state, 'IGNORE_WANT'), ev_count('DoctestPart.check') == 0)"),
              ],
@@ -218,7 +225,8 @@ contract(_Q + "run",
                  ("output-logged-on-every-outcome",
                   "implies(ev_count('compile') == 1 and ev_outcome('compile', 0) == 'normal', partx in self.logged_stdout)"),
                  # C09.failedflag
-                 ("directive-failure-recorded", "implies(ev_raised('RuntimeState.update') == 1, self.exc_info is not None)"),
+                 ("directive-failure-recorded", "implies(ev_raised('RuntimeState.update') == 1, self.exc_info is not None "
+                                                "and self.failed_part is part)"),
                  ("import-failure-recorded", "implies(ev_raised('DocTest._import_module') == 1, self.exc_info is not None "
                                              "and self.failed_part == '<IMPORT>')"),
                  ("compile-failure-recorded", "implies(ev_raised('compile') == 1, self.exc_info is not None and self.failed_part is part)"),
@@ -283,3 +291,8 @@ contract(_Q + "cmdline",
          props=["C10"], log=False,
          opts={"native": False, "functional": _CMD, "defined_when": "self.mode == 'native'"},
          note="functional for native-mode doctests: the command line names the doctest by path and callname:num")
+
+
+contract(_Q + "anything_ran", params={"self": "DocTest"}, returns="bool", modifies=[],
+         ensures=[("some-output-was-logged", "result == (len(self.logged_stdout) > 0)")],
+         props=["C15", "C02"], opts={"native": False})
